@@ -557,14 +557,14 @@ fn adversarial_committer(ctx: &mut Ctx, shard_item: &mut usize) {
 pub fn meta(_tier: &str) -> Meta {
     Meta {
         level: "model_checking",
-        rule: "items = every message kind of a scripted world with its pre-delivery world (key package, Welcomes, GroupInfo, exported tree, two application messages, two proposals, two competing commits, commit with add+PSK; public and encrypted handshake); per item and receiver: genuine delivery accepted and truthfully reported; every bit flip (quick: one bit per byte), every truncation (quick: every third length), every field splice with the partner item, replay into every other recorded epoch and into a second group of the same parties: never accepted, never a panic (a Welcome altered only inside another joiner's secrets must give the identical result); insider forgeries: a public proposal re-attributed to every other leaf and to leaves beyond the tree, re-signed with the forger's key and given a valid membership tag (hooks H6; the procedure is validated by reproducing the genuine message); adversarial committer (hook H7) in a dense and a blank-leaf 5-member tree, every committer x {truncate path to 0..3 nodes, extend, swap nodes, foreign node key, permuted / dropped ciphertexts at positions 0..3} x every receiver: never a panic; too short / too long paths rejected by everybody; insider forgeries of private messages (checks/c03x.rs): in a 3-member group with a blank leaf every member builds, from scratch, application PrivateMessages under the ratchet of every other member / another member's ratchet / the blank leaf / a leaf beyond the tree (generations 0, 1, 5; right and wrong header content type), with correct key, nonce, reuse guard, sender data and AAD but signed with its own key, delivered to every other member: never accepted, never a panic (the construction is validated by a control signed with the victim's real key, which must be accepted and attributed to the victim), and authentic messages with zero padding of several lengths (accepted) and with a non-zero padding byte (refused, RFC 9420 6.3.1); states = items, transitions = byte offsets + adversarial commits".into(),
+        rule: "items = every message kind of a scripted world with its pre-delivery world (key package, Welcomes, GroupInfo, exported tree, two application messages, two proposals, two competing commits, commit with add+PSK; public and encrypted handshake); per item and receiver: genuine delivery accepted and truthfully reported; every bit flip (quick: one bit per byte), every truncation (quick: every third length), every field splice with the partner item, replay into every other recorded epoch and into a second group of the same parties: never accepted, never a panic (a Welcome altered only inside another joiner's secrets must give the identical result); insider forgeries: a public proposal re-attributed to every other leaf and to leaves beyond the tree, re-signed with the forger's key and given a valid membership tag (hooks H6; the procedure is validated by reproducing the genuine message); adversarial committer (hook H7) in a dense and a blank-leaf 5-member tree, every committer x {truncate path to 0..3 nodes, extend, swap nodes, foreign node key, permuted / dropped ciphertexts at positions 0..3} x every receiver: never a panic; too short / too long paths rejected by everybody; insider forgeries of private messages (checks/c03x.rs): in a 3-member group with a blank leaf every member builds, from scratch, application PrivateMessages under the ratchet of every other member / another member's ratchet / the blank leaf / a leaf beyond the tree (generations 0, 1, 5; right and wrong header content type), with correct key, nonce, reuse guard, sender data and AAD but signed with its own key, delivered to every other member: never accepted, never a panic (the construction is validated by a control signed with the victim's real key, which must be accepted and attributed to the victim), and authentic messages with zero padding of several lengths (accepted) and with a non-zero padding byte (refused, RFC 9420 6.3.1), and application data sent as a PublicMessage with a genuine signature and membership tag (refused, RFC 9420 6.2); states = items, transitions = byte offsets + adversarial commits".into(),
         assumptions: {
             let mut a = default_assumptions();
             a.push("a node key unrelated to the path secrets, or permuted ciphertexts, can only be noticed by receivers below that node; for those mutations the check demands 'no panic' and records who accepts".into());
             a
         },
         bounds: bounds_json(&[("bit_flips", json!("all 8 bits per byte in thorough, 1 bit per byte in quick"))]),
-        required_goals: vec!["field-splice", "insider-forgery", "insider-forging-procedure-validated", "adversarial-commit", "private-forging-procedure-validated", "insider-private-forgery", "non-zero-padding"],
+        required_goals: vec!["field-splice", "insider-forgery", "insider-forging-procedure-validated", "adversarial-commit", "private-forging-procedure-validated", "insider-private-forgery", "non-zero-padding", "public-application-message"],
         min_outcomes: 6,
         workers: 16,
     }
